@@ -112,12 +112,17 @@ OK12(e) ==
     /\ NonZeroPids(e.packet) /\ VarIntsOk(e.packet) /\ FlaggedPayloadOk(e.fam, e.packet)
 
 \* ---- C13
+\* end of protocol name + level in a CONNECT frame, computed by the specification from the bytes
+AfterProto(b) == LET d == DecVarIntAt(b, 2)
+                     nm == RBin(b, 2 + d.w)
+                 IN nm.p                                 \* nm.p - 1 bytes precede the level byte; the level is byte nm.p
 OK13(e) ==
     LET found == e.native_packet.protocol IN
-    \A i \in 1..Len(e.fronts) :
+    /\ e.after_proto = AfterProto(e.bytes)                \* (the harness resumes at this offset)
+    /\ \A i \in 1..Len(e.fronts) :
         LET f == e.fronts[i] IN
         /\ IsErrE(f.res, "UnexpectedProtocol") /\ f.res.a = <<found>>
-        /\ (f.front = "async" => f.pos <= e.after_proto)
+        /\ (f.front = "async" => f.pos <= AfterProto(e.bytes))     \* consumed no more than name and level
         /\ OkPkt(f.resume, e.native_packet)
 FamilyOf(pv) == IF pv = "V500" THEN "v5" ELSE "v3"
 TableRow(res, fam, e) ==
